@@ -5,6 +5,7 @@ package vh
 // the include equals its value before.
 
 import (
+	"errors"
 	"fmt"
 	"testing"
 
@@ -58,7 +59,16 @@ func (g *incGen) includedBody(tag string, nested *S) []*S {
 	body = append(body, Print(Var("w1")), Text(","), Print(Filt(Var("i"), "default", Str("-"))))
 	n := rapid.IntRange(1, 4).Draw(g.t, "nwrites")
 	for k := 0; k < n; k++ {
-		switch g.pick(6, "write") {
+		switch g.pick(8, "write") {
+		case 6:
+			// null assigned over an includer name: the included template reads null from then on
+			g.stats["sets-includer-name-to-null"] = true
+			nm := rapid.SampledFrom(c11Names[:3]).Draw(g.t, "nullname")
+			body = append(body, SetS(nm, Null()), Text("~"), Print(Filt(Var(nm), "default", Str("NUL"))), Text("~"))
+		case 7:
+			// a null loop value under the includer's loop-variable name
+			g.stats["loops-with-includer-loop-var"] = true
+			body = append(body, &S{K: "for", Name: "i", E: List(Null(), Int(8)), Body: []*S{Print(Filt(Var("i"), "default", Str("N"))), Print(Attr(Var("loop"), "index"))}})
 		case 0:
 			g.stats["sets-includer-name"] = true
 			body = append(body, SetS(rapid.SampledFrom(c11Names[:3]).Draw(g.t, "setname"), Int(int64(900+k))))
@@ -105,7 +115,13 @@ func (g *incGen) includeStmt(target string, placementLoop bool) *S {
 		if g.pick(2, "withover") == 0 {
 			// overrides an includer variable for the included template only
 			keys = append(keys, rapid.SampledFrom(c11Names[:3]).Draw(g.t, "overname"))
-			vals = append(vals, Bin("+", Var("q"), Int(100)))
+			if g.pick(3, "overnull") == 0 {
+				// null is a value like any other: it hides the includer's variable
+				vals = append(vals, rapid.SampledFrom([]*E{Null(), Var("undefined_name")}).Draw(g.t, "nullval"))
+				g.stats["with-overrides-by-null"] = true
+			} else {
+				vals = append(vals, Bin("+", Var("q"), Int(100)))
+			}
 			g.stats["with-overrides-includer-var"] = true
 		}
 		if placementLoop && g.pick(2, "passloop") == 0 {
@@ -228,7 +244,7 @@ func checkC11(c SetCase) error {
 	return nil
 }
 
-const c11Rule = "includer + chains of 1-3 included templates; every combination of with{...}/only/ignore missing/sandboxed, static and computed names, placement at top level, in a loop (loop variable passed via with), in a block, in a macro, in an if; the included templates read the includer's names, set includer names and new names, loop with the includer's loop-variable name, define blocks and macros the includer also has; the includer probes all names (values and definedness), its macro and its loop state after the include; missing templates with and without ignore missing; non-trivial = the included template writes a name the includer probes, or with/only is present; distinct by source set"
+const c11Rule = "includer + chains of 1-3 included templates; every combination of with{...}/only/ignore missing/sandboxed, static and computed names, placement at top level, in a loop (loop variable passed via with), in a block, in a macro, in an if; the included templates read the includer's names, set includer names (also to null) and new names, receive null through with, loop with the includer's loop-variable name, define blocks and macros the includer also has; the includer probes all names (values and definedness), its macro and its loop state after the include; missing templates with and without ignore missing; non-trivial = the included template writes a name the includer probes, or with/only is present; distinct by source set"
 
 func TestC11Include(t *testing.T) {
 	r := NewRec(t, "C11", c11Rule)
@@ -256,7 +272,7 @@ func TestC11Include(t *testing.T) {
 // TestC11Options: all 16 option combinations x 4 placements x {existing, missing} with a
 // fixed writing included template.
 func TestC11Options(t *testing.T) {
-	r := NewRec(t, "C11", "exhaustive: with/only/ignore missing/sandboxed in all 16 combinations x placement {top level, loop, block, macro} x {existing template, missing template, template that fails for another reason}; the included template sets an includer name, a new name and loops with the includer's loop variable; all cases non-trivial")
+	r := NewRec(t, "C11", "exhaustive: with/only/ignore missing/sandboxed in all 16 combinations x placement {top level, loop, block, macro} x {existing template, missing template, template that fails for another reason, template whose loader fails with an I/O error while a second loader lacks it}; the included template sets an includer name, a new name and loops with the includer's loop variable; all cases non-trivial")
 	defer r.Flush()
 	r.SetExhaustive()
 	ctx := Ctx{}
@@ -294,9 +310,66 @@ func TestC11Options(t *testing.T) {
 				if err := checkC11(c); err != nil {
 					r.FailEnum(t, "C11.include", c, err)
 				}
+				if target == 0 {
+					// the included template exists, but the loader that has it fails with an
+					// I/O style error while another loader simply lacks it: "every other failure
+					// is reported", with or without `ignore missing`, in either loader order
+					for order := 0; order < 2; order++ {
+						cc := C11IOCase{Case: c, Order: order}
+						r.Case(fmt.Sprint("ioerr", opts, placement, order), true, PrintS(inc, SPrint{}), "loader-failure")
+						if err := checkC11IO(cc); err != nil {
+							r.FailEnum(t, "C11.ioerr", cc, err)
+						}
+					}
+				}
 			}
 		}
 	}
 }
+
+type C11IOCase struct {
+	Case  SetCase `json:"case"`
+	Order int     `json:"order"`
+}
+
+// c11FailFor serves nothing and fails with a wrapped sentinel for one name
+type c11FailFor struct{ name string }
+
+func (l c11FailFor) Load(name string) (string, error) {
+	if name == l.name {
+		return "", fmt.Errorf("read %s: backend unavailable: %w", name, errSentinel)
+	}
+	return "", fmt.Errorf("%w: %s", twig.ErrTemplateNotFound, name)
+}
+func (l c11FailFor) Exists(name string) bool { return name == l.name }
+
+func checkC11IO(c C11IOCase) error {
+	srcs := c.Case.Set.Sources(SPrint{})
+	rest := copyMap(srcs)
+	delete(rest, "inc")
+	e := twig.New()
+	if c.Order == 0 {
+		e.RegisterLoader(c11FailFor{"inc"})
+		e.RegisterLoader(twig.NewArrayLoader(rest))
+	} else {
+		e.RegisterLoader(twig.NewArrayLoader(rest))
+		e.RegisterLoader(c11FailFor{"inc"})
+	}
+	e.EnableSandbox(allowAll{})
+	NewSpies().Install(e)
+	r := render(e, "main", c.Case.Ctx.Go())
+	if r.Panic != "" {
+		return fmt.Errorf("engine panicked: %s", r.Panic)
+	}
+	if r.Err == "" {
+		return fmt.Errorf("the loader holding 'inc' failed with an I/O error (another loader lacks the name) but the render returned %s without an error; main: %s", q(r.Out), q(srcs["main"]))
+	}
+	if !errors.Is(r.Error(), errSentinel) {
+		return fmt.Errorf("the render failed but the error does not wrap the loader's failure: %s", firstLine(r.Err))
+	}
+	return nil
+}
+
+func init() { reg("C11.ioerr", checkC11IO) }
 
 func init() { reg("C11.include", checkC11) }
